@@ -130,6 +130,10 @@ def rich_font(draw, max_base=5, kinds=("line", "curve"), with_layers=True, with_
                     max_size=2,
                 )
             )
+        if any(f.get("name") == "DottedCircle" for f in lib.get("com.github.googlei18n.ufo2ft.filters", [])) and chance(draw, 1, 2) and "uni25CC" not in names:
+            # a dotted circle that already exists but carries none of the anchors marks attach to: the filter has to add them (to its copy)
+            glyphs.append({"name": "uni25CC", "width": 600, "unicodes": [0x25CC], "contours": [[[100, 100, "line"], [500, 100, "line"], [300, 500, "line"]]]})
+            names.append("uni25CC")
         if chance(draw, 1, 4):
             lib["com.github.googlei18n.ufo2ft.featureWriters"] = draw(
                 st.sampled_from(
@@ -222,6 +226,11 @@ def build_designspace(fam, module):
         s = SourceDescriptor()
         s.font = f
         s.location = dict(m["loc"])
+        if fam.get("partial_locations"):
+            # a source may leave out the axes on which it sits at the default
+            for a in ds.axes:
+                if a.name in s.location and s.location[a.name] == a.map_forward(a.default):
+                    del s.location[a.name]
         s.name = "master%d" % i
         s.familyName = "Test"
         s.styleName = "M%d" % i
@@ -229,14 +238,20 @@ def build_designspace(fam, module):
     sparse = fam.get("sparse")
     if sparse:
         sp = perturb(fam["base"], sparse["k"], fam.get("amp", 1.0), False)
-        f = fonts[0]
-        L = f.newLayer("sparse")
-        for g in sp["glyphs"]:
-            if g["name"] in sparse["names"]:
-                S._build_glyph(L, g)
         s = SourceDescriptor()
-        s.font = f
-        s.layerName = "sparse"
+        if sparse.get("own_ufo"):
+            # the sparse master is a font of its own (a source without a layer name) holding only its glyphs
+            f = S.build({"info": dict(sp.get("info", {})), "glyphs": [g for g in sp["glyphs"] if g["name"] in sparse["names"]], "lib": {}}, module)
+            fonts.append(f)
+            s.font = f
+        else:
+            f = fonts[0]
+            L = f.newLayer("sparse")
+            for g in sp["glyphs"]:
+                if g["name"] in sparse["names"]:
+                    S._build_glyph(L, g)
+            s.font = f
+            s.layerName = "sparse"
         s.location = dict(sparse["loc"])
         s.name = "sparse"
         ds.addSource(s)
